@@ -652,10 +652,11 @@ class RiscvParser(Parser):
                     line_parsed, instruction_address, line_number, line
                 )
             else:
-                # in line label
+                # in line label (a pseudo instruction may have been expanded into several entries
+                # with the same line number: the label belongs to the first of them only)
                 if line_number in self.in_line_labels:
                     self._add_label_mapping(
-                        self.in_line_labels[line_number],
+                        self.in_line_labels.pop(line_number),
                         instruction_address,
                         line_number,
                         line,
